@@ -90,45 +90,45 @@ type RPushPop = RSeq2<RWs, 0, RPush<RStr<A>>, RPop>;
 
 harnesses! {
     // ---- RepMinMax: all MIN <= MAX in 0..3 with skip (abstract child), a selection without skip
-    #[kani::unwind(8)] fn c19_mm_0_0_s() [T0 S] : "Q|RepMinMax<_,0,0> with skip: never iterates; abstract progressing child, 3 positions" { rep_abs::<1, 0, 0, 0>(0) }
-    #[kani::unwind(8)] fn c19_mm_0_1_s() [T0 S] : "Q|RepMinMax<_,0,1> with skip" { rep_abs::<1, 0, 1, 0>(0) }
-    #[kani::unwind(8)] fn c19_mm_0_2_s() [T0 S] : "Q|RepMinMax<_,0,2> with skip" { rep_abs::<1, 0, 2, 0>(0) }
-    #[kani::unwind(8)] fn c19_mm_0_3_s() [T0 S] : "Q|RepMinMax<_,0,3> with skip" { rep_abs::<1, 0, 3, 0>(0) }
-    #[kani::unwind(8)] fn c19_mm_1_1_s() [T0 S] : "Q|RepMinMax<_,1,1> with skip" { rep_abs::<1, 1, 1, 0>(0) }
-    #[kani::unwind(8)] fn c19_mm_1_2_s() [T0 S] : "Q|RepMinMax<_,1,2> with skip (pushing child)" { rep_abs::<1, 1, 2, 1>(0) }
-    #[kani::unwind(8)] fn c19_mm_1_3_s() [T0 S] : "Q|RepMinMax<_,1,3> with skip" { rep_abs::<1, 1, 3, 0>(0) }
-    #[kani::unwind(8)] fn c19_mm_2_2_s() [T0 S] : "Q|RepMinMax<_,2,2> = RepExact<2> with skip" { rep_abs::<1, 2, 2, 0>(0) }
-    #[kani::unwind(8)] fn c19_mm_2_3_s() [T0 S] : "Q|RepMinMax<_,2,3> with skip (popping child, depth 3)" { rep_abs::<1, 2, 3, 2>(3) }
-    #[kani::unwind(8)] fn c19_mm_3_3_s() [T0 S] : "Q|RepMinMax<_,3,3> = RepExact<3> with skip" { rep_abs::<1, 3, 3, 0>(0) }
-    #[kani::unwind(8)] fn c19_mm_0_2_n() [T0 S] : "Q|RepMinMax<_,0,2> without skip" { rep_abs::<0, 0, 2, 0>(0) }
-    #[kani::unwind(8)] fn c19_mm_1_2_n() [T0 S] : "Q|RepMinMax<_,1,2> without skip" { rep_abs::<0, 1, 2, 0>(0) }
-    #[kani::unwind(8)] fn c19_mm_2_3_n() [T0 S] : "Q|RepMinMax<_,2,3> without skip" { rep_abs::<0, 2, 3, 1>(0) }
-    #[kani::unwind(8)] fn c19_mm_1_3_s_empty() [T0 S] : "Q|RepMinMax<_,1,3> with skip, element may match empty: still greedy up to MAX" { rep_abs_with::<1, 1, 3, 0>(0, FREE) }
-    #[kani::unwind(8)] fn c19_mm_0_2_n_empty_pop() [T0 S] : "Q|RepMinMax<pop-kind,0,2> no skip, element may match empty (DROP{0,2}): performs MAX stack operations when it can" { rep_abs_with::<0, 0, 2, 2>(3, FREE) }
-    #[kani::unwind(8)] fn c19_mm_2_3_s_empty_push() [T0 S] : "Q|RepMinMax<push-kind,2,3> with skip, element may match empty" { rep_abs_with::<1, 2, 3, 1>(0, FREE) }
-    #[kani::unwind(8)] fn c19_mm_1_4_s() [T0 S] : "T|RepMinMax<_,1,4> with skip (MAX beyond the input)" { rep_abs::<1, 1, 4, 0>(0) }
+    #[kani::unwind(5)] fn c19_mm_0_0_s() [T0 S] : "Q|RepMinMax<_,0,0> with skip: never iterates; abstract progressing child, 3 positions" { rep_abs::<1, 0, 0, 0>(0) }
+    #[kani::unwind(5)] fn c19_mm_0_1_s() [T0 S] : "Q|RepMinMax<_,0,1> with skip" { rep_abs::<1, 0, 1, 0>(0) }
+    #[kani::unwind(5)] fn c19_mm_0_2_s() [T0 S] : "Q|RepMinMax<_,0,2> with skip" { rep_abs::<1, 0, 2, 0>(0) }
+    #[kani::unwind(5)] fn c19_mm_0_3_s() [T0 S] : "Q|RepMinMax<_,0,3> with skip" { rep_abs::<1, 0, 3, 0>(0) }
+    #[kani::unwind(5)] fn c19_mm_1_1_s() [T0 S] : "Q|RepMinMax<_,1,1> with skip" { rep_abs::<1, 1, 1, 0>(0) }
+    #[kani::unwind(5)] fn c19_mm_1_2_s() [T0 S] : "Q|RepMinMax<_,1,2> with skip (pushing child)" { rep_abs::<1, 1, 2, 1>(0) }
+    #[kani::unwind(5)] fn c19_mm_1_3_s() [T0 S] : "Q|RepMinMax<_,1,3> with skip" { rep_abs::<1, 1, 3, 0>(0) }
+    #[kani::unwind(5)] fn c19_mm_2_2_s() [T0 S] : "Q|RepMinMax<_,2,2> = RepExact<2> with skip" { rep_abs::<1, 2, 2, 0>(0) }
+    #[kani::unwind(5)] fn c19_mm_2_3_s() [T0 S] : "Q|RepMinMax<_,2,3> with skip (popping child, depth 3)" { rep_abs::<1, 2, 3, 2>(3) }
+    #[kani::unwind(5)] fn c19_mm_3_3_s() [T0 S] : "Q|RepMinMax<_,3,3> = RepExact<3> with skip" { rep_abs::<1, 3, 3, 0>(0) }
+    #[kani::unwind(5)] fn c19_mm_0_2_n() [T0 S] : "Q|RepMinMax<_,0,2> without skip" { rep_abs::<0, 0, 2, 0>(0) }
+    #[kani::unwind(5)] fn c19_mm_1_2_n() [T0 S] : "Q|RepMinMax<_,1,2> without skip" { rep_abs::<0, 1, 2, 0>(0) }
+    #[kani::unwind(5)] fn c19_mm_2_3_n() [T0 S] : "Q|RepMinMax<_,2,3> without skip" { rep_abs::<0, 2, 3, 1>(0) }
+    #[kani::unwind(5)] fn c19_mm_1_3_s_empty() [T0 S] : "Q|RepMinMax<_,1,3> with skip, element may match empty: still greedy up to MAX" { rep_abs_with::<1, 1, 3, 0>(0, FREE) }
+    #[kani::unwind(5)] fn c19_mm_0_2_n_empty_pop() [T0 S] : "Q|RepMinMax<pop-kind,0,2> no skip, element may match empty (DROP{0,2}): performs MAX stack operations when it can" { rep_abs_with::<0, 0, 2, 2>(3, FREE) }
+    #[kani::unwind(5)] fn c19_mm_2_3_s_empty_push() [T0 S] : "Q|RepMinMax<push-kind,2,3> with skip, element may match empty" { rep_abs_with::<1, 2, 3, 1>(0, FREE) }
+    #[kani::unwind(5)] fn c19_mm_1_4_s() [T0 S] : "T|RepMinMax<_,1,4> with skip (MAX beyond the input)" { rep_abs::<1, 1, 4, 0>(0) }
     // ---- RepMin: MIN 0..3, skip on/off
-    #[kani::unwind(8)] fn c19_min_0_s() [T0 S] : "Q|RepMin<_,0> with skip" { repmin_abs::<1, 0, 0>(0) }
-    #[kani::unwind(8)] fn c19_min_1_s() [T0 S] : "Q|RepMin<_,1> with skip" { repmin_abs::<1, 1, 1>(0) }
-    #[kani::unwind(8)] fn c19_min_2_s() [T0 S] : "Q|RepMin<_,2> with skip" { repmin_abs::<1, 2, 0>(0) }
-    #[kani::unwind(8)] fn c19_min_3_s() [T0 S] : "Q|RepMin<_,3> with skip" { repmin_abs::<1, 3, 0>(0) }
-    #[kani::unwind(8)] fn c19_min_0_n() [T0 S] : "Q|RepMin<_,0> without skip" { repmin_abs::<0, 0, 0>(0) }
-    #[kani::unwind(8)] fn c19_min_2_n() [T0 S] : "Q|RepMin<_,2> without skip" { repmin_abs::<0, 2, 1>(0) }
+    #[kani::unwind(5)] fn c19_min_0_s() [T0 S] : "Q|RepMin<_,0> with skip" { repmin_abs::<1, 0, 0>(0) }
+    #[kani::unwind(5)] fn c19_min_1_s() [T0 S] : "Q|RepMin<_,1> with skip" { repmin_abs::<1, 1, 1>(0) }
+    #[kani::unwind(5)] fn c19_min_2_s() [T0 S] : "Q|RepMin<_,2> with skip" { repmin_abs::<1, 2, 0>(0) }
+    #[kani::unwind(5)] fn c19_min_3_s() [T0 S] : "Q|RepMin<_,3> with skip" { repmin_abs::<1, 3, 0>(0) }
+    #[kani::unwind(5)] fn c19_min_0_n() [T0 S] : "Q|RepMin<_,0> without skip" { repmin_abs::<0, 0, 0>(0) }
+    #[kani::unwind(5)] fn c19_min_2_n() [T0 S] : "Q|RepMin<_,2> without skip" { repmin_abs::<0, 2, 1>(0) }
     // ---- element kinds on concrete text
-    #[kani::unwind(8)] fn c19_str_mm12_skip() [T0 S] : "Q|RepMinMax<\"a\",1,2> with WS skip on text: 4 bytes over {a,' ',x}" {
+    #[kani::unwind(5)] fn c19_str_mm12_skip() [T0 S] : "Q|RepMinMax<\"a\",1,2> with WS skip on text: 4 bytes over {a,' ',x}" {
         conc_h!(RepMinMax<Str<A>, Ws, 1, 1, 2>, RRep<RWs, 1, RStr<A>, 1, 2>, 4, b"a x", 0, 3) }
-    #[kani::unwind(8)] fn c19_choice_mm02() [T0 S] : "Q|RepMinMax<Choice2<\"ab\",\"a\">,0,2> no skip: greedy, ordered" {
+    #[kani::unwind(5)] fn c19_choice_mm02() [T0 S] : "Q|RepMinMax<Choice2<\"ab\",\"a\">,0,2> no skip: greedy, ordered" {
         conc_h!(RepMinMax<Choice2<Str<AB>, Str<A>>, Ws, 0, 0, 2>, RRep<RWs, 0, RChoice2<RStr<AB>, RStr<A>>, 0, 2>, 4, b"abx", 0, 3) }
-    #[kani::unwind(8)] fn c19_nested_rep() [T0 S] : "Q|RepMinMax<RepMinMax<\"a\",1,2>,0,2> with skip on the outer only" {
+    #[kani::unwind(5)] fn c19_nested_rep() [T0 S] : "Q|RepMinMax<RepMinMax<\"a\",1,2>,0,2> with skip on the outer only" {
         conc_h!(RepMinMax<RepMinMax<Str<A>, Ws, 0, 1, 2>, Ws, 1, 0, 2>, RRep<RWs, 1, RRep<RWs, 0, RStr<A>, 1, 2>, 0, 2>, 4, b"a x", 0, 3) }
-    #[kani::unwind(8)] fn c19_stackop_exact2() [T0 S] : "Q|RepExact<Seq2<Push<\"a\">,POP>,2> (stack op element)" {
+    #[kani::unwind(5)] fn c19_stackop_exact2() [T0 S] : "Q|RepExact<Seq2<Push<\"a\">,POP>,2> (stack op element)" {
         conc_h!(RepExact<PushPop<'_>, Ws, 0, 2>, RRep<RWs, 0, RPushPop, 2, 2>, 4, b"ab", 0, 4) }
     // ---- raw combinators
-    #[kani::unwind(8)] fn c19_array0() [T0 S] : "Q|[T;0] matches empty" { conc_h!([Str<A>; 0], RArr<RStr<A>, 0>, 3, b"ab", 0, 0) }
-    #[kani::unwind(8)] fn c19_array3() [T0 S] : "Q|[\"a\";3] = aaa" { conc_h!([Str<A>; 3], RArr<RStr<A>, 3>, 4, b"ab", 0, 3) }
-    #[kani::unwind(8)] fn c19_pair() [T0 S] : "Q|(\"a\",\"ab\")" { conc_h!((Str<A>, Str<AB>), RPair<RStr<A>, RStr<AB>>, 4, b"ab", 0, 3) }
-    #[kani::unwind(8)] fn c19_option() [T0 S] : "Q|Option<\"ab\">" { conc_h!(Option<Str<AB>>, ROpt<RStr<AB>>, 3, b"ab", 0, 2) }
-    #[kani::unwind(8)] fn c19_atomic_repeat() [T0 S] : "Q|AtomicRepeat<Choice2<\" \",\"ab\">> (the skip-repeat node)" {
+    #[kani::unwind(5)] fn c19_array0() [T0 S] : "Q|[T;0] matches empty" { conc_h!([Str<A>; 0], RArr<RStr<A>, 0>, 3, b"ab", 0, 0) }
+    #[kani::unwind(5)] fn c19_array3() [T0 S] : "Q|[\"a\";3] = aaa" { conc_h!([Str<A>; 3], RArr<RStr<A>, 3>, 4, b"ab", 0, 3) }
+    #[kani::unwind(5)] fn c19_pair() [T0 S] : "Q|(\"a\",\"ab\")" { conc_h!((Str<A>, Str<AB>), RPair<RStr<A>, RStr<AB>>, 4, b"ab", 0, 3) }
+    #[kani::unwind(5)] fn c19_option() [T0 S] : "Q|Option<\"ab\">" { conc_h!(Option<Str<AB>>, ROpt<RStr<AB>>, 3, b"ab", 0, 2) }
+    #[kani::unwind(5)] fn c19_atomic_repeat() [T0 S] : "Q|AtomicRepeat<Choice2<\" \",\"ab\">> (the skip-repeat node)" {
         conc_h!(AtomicRepeat<Choice2<Str<SP>, Str<AB>>>, RRep<REmpty, 0, RChoice2<RStr<SP>, RStr<AB>>, 0, { usize::MAX }>, 4, b"ab ", 0, 3) }
     #[kani::unwind(9)] fn c19_str_mm23_skip_5() [T0 S] : "T|RepMinMax<\"a\",2,3> with WS skip, 5 bytes" {
         conc_h!(RepMinMax<Str<A>, Ws, 1, 2, 3>, RRep<RWs, 1, RStr<A>, 2, 3>, 5, b"a x", 0, 4) }
